@@ -281,7 +281,8 @@ def worker(job, outpath):
                 # fusion histories (C13's generator) pushed through the whole metrics pipeline
                 import c13
                 for i in range(count):
-                    d = c13.with_format(c13.make_spec(c13.gen_hist(rng, rng.choice([2, 3, 3, 4, 5]))))
+                    hist = c13.gen_hist_merger(rng, rng.choice([2, 3, 3, 4])) if i % 4 == 3 else c13.gen_hist(rng, rng.choice([2, 3, 3, 4, 5]))
+                    d = c13.with_format(c13.make_spec(hist))
                     rec = make_record(gen, i, None, d, "metrics", 0, rng, hs, want_time=item.get("time", False))
                     out.write(json.dumps(rec) + "\n")
                 continue
